@@ -184,6 +184,11 @@ def incremental_tolerated(ctx, rule):
 
     def returns_err_of(lf):
         rk = ret_kind(lf)
+        if rk is not None and rk[0] == "prop":
+            # `line_parser(..).map_err(ParseError)?` (possibly through a helper): the parser's own error, wrapped
+            src, errv = propagated_error(rk[1])
+            wrapped = any(is_call(x, "map_err") and len(x[2]) == 2 and look(x[2][1]) == ("fnconst", "common::ConnectionError::ParseError") for x in subterms(rk[1]) if isinstance(x, tuple))
+            return errv is None and is_phl(src) and wrapped
         if rk is None or rk[0] != "Err":
             return False
         e = look(rk[1])
